@@ -117,9 +117,9 @@ example : Linear [⟨0, .hinit 1 0⟩, ⟨1, .hinit 2 0⟩] ∧ [Entry.mk 0 (.hi
 /-- **refuted (current code, DESIGN F16)**: whatever the job tree, a child that is not yet finished when its parent
 resolves (only possible for a `fork_thread` child) is missing from the parent's child call hashes, which changes the
 parent's call hash. -/
-theorem refuted_fork_thread (le : H → H → Bool) (t : Nat) (a : List HV) (r : HV) (s : Bool) (pre post : List JT) (k : JT) :
-    callHash le (.node t a r s (pre ++ k.setSeen true :: post)) ≠
-    callHash le (.node t a r s (pre ++ k.setSeen false :: post)) := callHash_unseen_ne le t a r s pre post k
+theorem refuted_fork_thread (le : H → H → Bool) (t : Nat) (a ea : List HV) (r : HV) (s : Bool) (pre post : List JT) (k : JT) :
+    callHash le (.node t a ea r s (pre ++ k.setSeen true :: post)) ≠
+    callHash le (.node t a ea r s (pre ++ k.setSeen false :: post)) := callHash_unseen_ne le t a ea r s pre post k
 
 /-! ### a concrete instance of the main theorem -/
 
